@@ -4,7 +4,7 @@
    engine over flat rich text), Model/Styles.v (labels, sorting, BaseStyle), Model/Citations.v
    (C05: citation resolution). *)
 From Pybtex Require Import Base.Prelude Base.PyChar Base.PyStr Model.RtTypes Model.Citations Model.Template Model.Styles
-  Proofs.Template Proofs.TemplateEmit Proofs.Styles Proofs.StylesEmit.
+  Proofs.Template Proofs.TemplateEmit Proofs.TemplateFuel Proofs.Styles Proofs.StylesEmit.
 Require Import Coq.Sorting.Permutation Coq.Sorting.Sorted.
 
 (* exactly one formatted entry per resolved citation (the citations resolved as in C05:
@@ -156,7 +156,7 @@ Print Assumptions bibliography_emits_leaves.
 Theorem field_leaf_value : forall c n a raw g,
   eval_field c n a raw = TOk (VT g) ->
   exists v f,
-    find_field (S (match c_db c with Some d => length d | None => 0 end)) (c_db c) (c_entry c) n [] = Some (Some v) /\
+    find_field (ff_fuel (c_db c)) (c_db c) (c_entry c) n [] = Some (Some v) /\
     (if raw then f = plain v else from_latex (c_dec c) v = TOk f) /\
     apply_afunc a f = TOk g.
 Proof. exact eval_field_spec. Qed.
@@ -189,6 +189,19 @@ Theorem alpha_labels_of_bibliography : forall cf tbl tp db cites out,
     map fe_label out = disambiguate bases.
 Proof. exact alpha_labels_of_bibliography_lemma. Qed.
 Print Assumptions alpha_labels_of_bibliography.
+
+
+(* ---- totality ---- *)
+
+(* the cross-reference chain of Entry._find_field terminates within the model's fuel (|db|+2: the entry,
+   pairwise different database entries, one call that finds its entry already visited), so evaluating
+   a template never runs out of fuel: every outcome is a text, FieldIsMissing, another error or a crash *)
+Theorem find_field_total : forall db e name, find_field (ff_fuel db) db e name [] <> None.
+Proof. exact find_field_fuel. Qed.
+Print Assumptions find_field_total.
+Theorem eval_never_out_of_fuel : forall c t, eval c t <> TFuel.
+Proof. exact eval_no_fuel_lemma. Qed.
+Print Assumptions eval_never_out_of_fuel.
 
 (* ---- non-vacuity ---- *)
 Definition ex_person : person := mkP [[74; 111]%N] [] [[118; 111; 110]%N] [[90; 101; 100]%N] [].
@@ -239,3 +252,9 @@ Proof.
   - eapply LvToplevel; [right; left; reflexivity|]. eapply LvSentence; [left; reflexivity|]. constructor. vm_compute. reflexivity.
   - eexists. split; vm_compute; reflexivity.
 Qed.
+
+Example crossref_cycle_example :
+  let par := mkE [112%N] [] [(s_crossref, [112%N])] [] in
+  eval (mkC (mkE [120%N] [] [(s_crossref, [112%N])] []) (Some [par]) [] NSPlain false) (TField s_title AId false)
+  = TMissing s_title [120%N].
+Proof. vm_compute. reflexivity. Qed.
